@@ -29,7 +29,7 @@ ACCOUNTS = ["alice:123", "bob", "albert", None, "alice", "Bob", "alice:1:2", "a*
 SERVICES = [("login.svc", "login"), ("Drone.Net", "dronecheck"), ("combo.svc", "combined")]
 
 
-def gen_rules(rng):
+def gen_rules(rng, bad=True):
     n = rng.randint(1, 6)
     names = []
     for nm in rng.sample(NAMES, len(NAMES)):
@@ -55,7 +55,7 @@ def gen_rules(rng):
         if rng.random() < 0.3:
             r["trust_username"] = rng.choice(["yes", "no", "1", "0", "true", "on"])
         rules.append(r)
-    if rng.random() < 0.12:
+    if bad and rng.random() < 0.12:
         # a rule whose address is no mask at all (a typing error), together with an account nobody has: it never places anybody, and
         # the rules around it - the one that follows it in name order in particular - are what they are without it
         nm = rng.choice([x for x in ("A00bad", "M5bad", "b0bad", "Zbad") if x.lower() not in [y["name"].lower() for y in rules]])
